@@ -3,19 +3,16 @@
    modules it loads before it starts) *)
 EXTENDS MC_Images
 
-EeThorough == <<{EeCase(v, ch, sp, p, a, fill, FALSE) : v \in {0, 1}, ch \in {0, 1, 80, 125, 255}, sp \in {0, 1, 2, 255},
-                                                        p \in 0..9, a \in {A1, A2, <<0, 0, 0, 0, 0>>, <<255, 255, 255, 255, 255>>},
-                                                        fill \in {0, 255}},
-                {EeCase(v, ch, 2, p, a, fill, TRUE) : v \in {0, 1}, ch \in {80, 0}, p \in {1, 6}, a \in {A1, A2}, fill \in {0, 255}}>>
+EeThorough == <<{<<v, ch, sp, p, a, fill, FALSE>> : v \in {0, 1}, ch \in {0, 1, 80, 125, 255}, sp \in {0, 1, 2, 255}, p \in 0..9,
+                                                    a \in {A1, A2, <<0, 0, 0, 0, 0>>, <<255, 255, 255, 255, 255>>}, fill \in {0, 255}},
+                {<<v, ch, 2, p, a, fill, TRUE>> : v \in {0, 1}, ch \in {80, 0}, p \in {1, 6}, a \in {A1, A2}, fill \in {0, 255}}>>
 OwThorough == OwCases(<<{0}, 0..99, 0..97, {0, 1, 2, 3, 5, 8, 13, 21, 34, 55, 64, 66, 68, 70, 89, 95}>>, 17, 112, FALSE)
               \o OwCases(<<{0}, 0..253, {0, 1, 86, 170, 172}, {0, 56, 57, 58}>>, 201, 272, FALSE)
-              \o <<{OwCase(<<1, 2>>, (1 :> 4) @@ (2 :> 2), 33, 112, TRUE),
-                     OwCase(<<3, 1, 2>>, (1 :> 5) @@ (2 :> 1) @@ (3 :> 0), 34, 112, TRUE)}>>
-LhThorough == <<{LhCase(G, {15 - g : g \in G}, p, 16, rev) : G \in SUBSET {0, 1, 2, 5, 9, 15}, p \in {1, 2}, rev \in BOOLEAN},
-                {LhCase(0..15, 0..15, 0, 16, FALSE), LhCase({0, 1, 3}, {1, 2}, 2, 2, TRUE), LhCase({0, 7}, {8}, 2, 8, FALSE)}>>
-
-LhFileThorough == <<{LhFileCase(G, {15 - g : g \in G}, p, st) : G \in SUBSET {0, 1, 2, 5, 9, 15}, p \in {1, 2}, st \in {1, 2}}>>
-DeckThorough == <<{DeckCase(a, b, n, 3) : a \in 0..127, b \in 0..3, n \in 0..18}, {DeckCase(1, 0, 4, v) : v \in {0, 2, 4}}>>
+              \o <<{<<<<1, 2>>, (1 :> 4) @@ (2 :> 2), 33, 112, TRUE>>, <<<<3, 1, 2>>, (1 :> 5) @@ (2 :> 1) @@ (3 :> 0), 34, 112, TRUE>>}>>
+LhThorough == <<{<<G, {15 - g : g \in G}, p, 16, rev>> : G \in SUBSET {0, 1, 2, 5, 9, 15}, p \in {1, 2}, rev \in BOOLEAN},
+                {<<0..15, 0..15, 0, 16, FALSE>>, <<{0, 1, 3}, {1, 2}, 2, 2, TRUE>>, <<{0, 7}, {8}, 2, 8, FALSE>>}>>
+LhFileThorough == <<{<<G, {15 - g : g \in G}, p, st>> : G \in SUBSET {0, 1, 2, 5, 9, 15}, p \in {1, 2}, st \in {1, 2}}>>
+DeckThorough == <<{<<a, b, n, 3>> : a \in 0..127, b \in 0..3, n \in 0..18}, {<<1, 0, 4, v>> : v \in {0, 2, 4}}>>
 CasesThorough == Cases(EeThorough, OwThorough, LhThorough, LhFileThorough, DeckThorough)
 CorPosThorough == [f \in {"eeprom", "ow"} |-> IF f = "eeprom" THEN 1..21 ELSE 1..24]
 ====
